@@ -788,22 +788,48 @@ def check_condition(prog, site, cond):
                     return True, "dominated by count() == %d over the same sequence (a sequence with %d matching element(s) has length >= %d)" % (n, n, n)
         return False, "no dominating count() == %d over the sequence; guards %s" % (n, prim.guards_fmt(gs)[:200])
     if ty == "inner_match_covers_arm":
-        # unreachable!() in the wildcard arm of an inner `match s {lits.. , _ => unreachable}` nested in an outer arm whose
-        # literals are a subset of the inner ones, on the same subject with no write to the index in between
-        outer = None
+        # unreachable!() in the wildcard arm of an inner `match s {lits.. , _ => unreachable}` nested in an arm of the
+        # function's large string dispatch. Only tests made *inside* the enclosing arm count (the dispatch chain itself has
+        # already tested every earlier literal false on the way to any arm).
+        #  - entry for an arm of primaries (`"-atime" | "-ctime" | "-mtime" => match args[i] {.., _ => unreachable!()}`): the
+        #    enclosing arm is the one the entry names, the inner tests are on the arm's own token (cursor not moved) and
+        #    cover every literal of the arm;
+        #  - entry for other literals (the `;`/`+` scan of -exec): the inner tests cover the literals the entry names.
+        from . import dispatch as _dispatch
+        arms = cond["arm"]
+        ds = _dispatch.find_dispatches(fn)
+        d = ds[0] if ds and len(ds[0].tests) >= 10 else None
+        entry, lits = None, None
+        if d is not None:
+            for e_, ls_ in d.arms.items():
+                if fn.dominates(e_, b) and (entry is None or fn.dominates(entry, e_)):
+                    entry, lits = e_, list(ls_)
         inner = set()
+        subj_ok = True
+        arm_info = None
+        if entry is not None:
+            arm_info = _dispatch.ArmInfo(fn, None, lits, entry, {x for x in fn.reach_from([entry]) if fn.dominates(entry, x)})
         for gd in gs:
             pr = gd["pred"].strip()
             if pr.k == "call" and pr.a["name"] in ("eq", "ne"):
-                lits = [c.get("v") for c in pr.consts() if c.get("k") == "str"]
-                if not lits:
+                ls = [c.get("v") for c in pr.consts() if c.get("k") == "str"]
+                if not ls:
                     continue
+                if entry is not None and not (gd["bb"] == entry or fn.dominates(entry, gd["bb"])):
+                    continue        # a test of the dispatch chain, not of the inner match
                 is_true = (pr.a["name"] == "eq") == (gd["bool"] is True)
                 if not is_true:
-                    inner.add(lits[0])
-        arms = cond["arm"]
+                    inner.add(ls[0])
+                    if arm_info is not None and all(str(x).startswith("-") for x in arms) and ls[0] in arms:
+                        from .rules import common as _C
+                        subj = [k for k in pr.kids if not (prim.resolve_promoted(fn, k).strip().k == "const")]
+                        if not subj or _C.arm_token_abs(fn, arm_info, subj[0], gd["bb"]) != 0:
+                            subj_ok = False
+        if entry is not None and all(str(x).startswith("-") for x in arms):
+            ok = set(lits) == set(arms) and set(arms) <= inner and subj_ok
+            return ok, "the site is in the arm %s of the dispatch, on the all-false chain of tests %s made inside that arm on its own token (%s); entry for %s" % (lits, sorted(inner & set(arms)), "cursor unmoved" if subj_ok else "subject is not the arm's token", arms)
         ok = set(arms) <= inner
-        return ok, "the site is on the all-false chain of inner tests %s which cover the enclosing arm %s" % (sorted(inner & set(arms)), arms)
+        return ok, "the site is on the all-false chain of inner tests %s which cover %s" % (sorted(inner & set(arms)), arms)
     if ty == "guard_false_lt_sum":
         # `&s[start..end]` where a dominating guard `end < base + k` is false and every constant assigned to the user local k is
         # >= the offset used in `start = base + offset` (role-based: locals are identified through the range operands)
